@@ -9,3 +9,91 @@ pub mod hpack {
     pub use crate::hpack::huffman::{decode as huffman_decode, encode as huffman_encode};
     pub use crate::hpack::{BytesStr, Decoder, DecoderError, Encoder, Header, NeedMore};
 }
+
+// ===== event sink =====
+//
+// The library calls `enter`/`ev` at the entry of selected internal functions (each call site is a
+// single `#[cfg(feature = "verif-hooks")]` statement).  Nothing is recorded unless the current
+// thread called `start()`.
+
+use std::cell::{Cell, RefCell};
+
+/// One recorded call of a hooked function: its name, nesting depth among hooked functions, and
+/// a few integers (arguments and pre-state) whose meaning is fixed per name.
+#[derive(Debug, Clone)]
+pub struct Ev {
+    pub name: &'static str,
+    pub depth: u32,
+    pub args: Vec<i64>,
+}
+
+thread_local! {
+    static SINK: RefCell<Option<Vec<Ev>>> = const { RefCell::new(None) };
+    static DEPTH: Cell<u32> = const { Cell::new(0) };
+}
+
+/// Start recording on this thread (clears previous events).
+pub fn start() {
+    SINK.with(|s| *s.borrow_mut() = Some(Vec::new()));
+    DEPTH.with(|d| d.set(0));
+}
+
+/// Stop recording on this thread.
+pub fn stop() {
+    SINK.with(|s| *s.borrow_mut() = None);
+}
+
+/// Take the events recorded so far.
+pub fn drain() -> Vec<Ev> {
+    SINK.with(|s| match s.borrow_mut().as_mut() {
+        Some(v) => std::mem::take(v),
+        None => Vec::new(),
+    })
+}
+
+fn record(name: &'static str, f: impl FnOnce() -> Vec<i64>) {
+    SINK.with(|s| {
+        if let Some(v) = s.borrow_mut().as_mut() {
+            let depth = DEPTH.with(|d| d.get());
+            v.push(Ev {
+                name,
+                depth,
+                args: f(),
+            });
+        }
+    });
+}
+
+/// Guard returned by `enter`; restores the nesting depth when dropped.
+pub struct Scope(());
+
+impl Drop for Scope {
+    fn drop(&mut self) {
+        DEPTH.with(|d| d.set(d.get().saturating_sub(1)));
+    }
+}
+
+/// Record the entry of a hooked function and open a nesting level.
+pub fn enter(name: &'static str, f: impl FnOnce() -> Vec<i64>) -> Scope {
+    record(name, f);
+    DEPTH.with(|d| d.set(d.get() + 1));
+    Scope(())
+}
+
+/// Record a point event (no nesting).
+pub fn ev(name: &'static str, f: impl FnOnce() -> Vec<i64>) {
+    record(name, f);
+}
+
+// ===== statistics snapshot =====
+
+/// Read-only statistics of one connection's stream layer.
+#[derive(Debug, Clone, Default)]
+pub struct Snapshot {
+    /// connection-level numbers, `(name, value)`
+    pub conn: Vec<(&'static str, i64)>,
+    /// per stream record, in store (IndexMap) order: numbers and the `Debug` form of its state
+    pub streams: Vec<(Vec<(&'static str, i64)>, String)>,
+    /// queue contents (stream ids in queue order)
+    pub queues: Vec<(&'static str, Vec<u32>)>,
+}
